@@ -10,7 +10,7 @@ OPTS = {"p_handler": 0.55, "p_bs": 0.5, "handler_choices": ["S", "S", "S", "D", 
         "p_fail_exc": 0.6, "p_special": 0.05,
         # the context-manager entry binds the per-call handler / hook / sleeper once for several calls; the sugar entry points
         # (RetryPolicy, decorator, from_config) must forward every per-call and per-policy handler / hook / sleeper
-        "entries": ["retry", "retry", "retry", "retry.ctx", "retrypolicy", "retrypolicy", "retrypolicy.ctx", "decorator", "retrycfg"]}
+        "entries": ["retry", "retry", "retry", "retry.ctx", "retrypolicy", "retrypolicy", "retrypolicy.ctx", "decorator", "retrycfg", "retrypolicyattr", "policy.ctx"]}
 
 
 def run(chk):
